@@ -515,6 +515,29 @@ fn nft_rounds(rep: &mut Report, tier: &Tier) {
     }
 }
 
+/// The producer on a node that keeps only its tip's transactions in memory (prune_after_blocks = 1):
+/// the default payment history at fee levels 0 and 6000 through two window wraps.
+fn pruned_producer(rep: &mut Report) {
+    use super::c13::{run_history_with, Act, Step};
+    for g in [3u64, 4] {
+        for fee in [0u64, 6_000] {
+            let steps: Vec<Step> = (0..(2 * g + 5) as usize).map(|i| Step { act: Act::Pay(fee), gt: i % 2 == 1, fork_before: false }).collect();
+            rep.evaluations += 1;
+            let mut inner = rep.child();
+            run_history_with(g, &steps, 1, false, &mut inner);
+            rep.transitions += inner.transitions;
+            let cut: u64 = inner.outcomes.iter().filter(|(k, _)| k.starts_with("history-cut:block-not-accepted")).map(|(_, v)| *v).sum();
+            let ctx = json!({"g": g, "fee": fee, "prune_after_blocks": 1, "history": "default payments, golden ticket every other block"});
+            if cut > 0 {
+                let key = "own-block-rejected/producer-keeps-one-block-in-memory";
+                rep.violate_inst(key, &format!("{}|g{}|fee{}", key, g, fee), format!("a block the producer assembled was not adopted by its own node: {}", ctx), ctx);
+            } else {
+                rep.outcome("pruned-producer:every-produced-block-adopted");
+            }
+        }
+    }
+}
+
 pub fn main(tier: Tier, _replay: Option<String>) -> i32 {
     let mut rep = Report::new("C07", tier.clone(), "model_checking");
     let mut ss = scripts(&tier);
@@ -543,6 +566,7 @@ pub fn main(tier: Tier, _replay: Option<String>) -> i32 {
     }
     producer_after_restart(&mut rep);
     nft_rounds(&mut rep, &tier);
+    pruned_producer(&mut rep);
     rep.states = all.len() as u64;
     rep.required_outcomes = vec!["peer-block-conflicting-with-the-pool".into(), "no-block".into()];
     if !rep.outcomes.keys().any(|k| k.contains("+atr")) {
